@@ -30,6 +30,22 @@ def conc(E, t, what):
     return n
 
 
+def last_seg_(t):
+    from engine import last_seg
+    return last_seg(t)
+
+
+def elem_ident(E, v):
+    """identity of a container element in sort U; Rc / Box / Arc and references are transparent (Eq and Hash look through them)"""
+    while True:
+        if isinstance(v, VRef):
+            v = E.read_ref(v)
+        elif isinstance(v, VStruct) and v.name in ("Rc", "Box", "Arc") and len(v.fields) == 1:
+            v = v.fields[0]
+        else:
+            return E.as_u(v)
+
+
 CONTAINER_RE = re.compile(r"(?:^|::)((BTreeMap|BTreeSet|Vec|HashMap|HashSet|LinkedHashMap|LinkedHashSet|VecDeque)::<.*>|String|str)::(len|is_empty)$", re.S)
 
 
@@ -117,11 +133,16 @@ def dispatch(E, c, tc, args):
             return VSeq([], "map")
         r = ref_chain(E, args[0]) if args and isinstance(args[0], VRef) else None
         d = E.read_ref(r) if r is not None else None
-        if isinstance(d, VSeq) and d.kind == "map":
-            kid = str(E.as_u(args[1]))
+        from engine import VLazy as _VL
+        if meth == "contains_key" and isinstance(d, (_VL, VOpaque)):
+            # membership in an abstract (lazily initialised) map: an arbitrary but fixed predicate of map and key
+            f = z3.Function("map_contains_key", E.U, E.U, z3.BoolSort())
+            return VBool(f(E.as_u(d), elem_ident(E, args[1])))
+        if isinstance(d, VSeq) and d.kind in ("map", "umap"):
+            kid = str(elem_ident(E, args[1]))
             pos = None
             for k, it in enumerate(d.items):
-                if str(E.as_u(it.fields[0])) == kid:
+                if str(elem_ident(E, it.fields[0])) == kid:
                     pos = k
             if meth == "insert":
                 if pos is None:
@@ -134,6 +155,13 @@ def dispatch(E, c, tc, args):
                 return VBool(pos is not None)
             if meth == "get":
                 return some(VRef(r.cell, r.path + (("field", pos), ("field", 1)))) if pos is not None else NONE()
+    if re.match(r"^<std::vec::Vec<.*> as (std::iter::)?Extend<.*>>::extend(::<.*>)?$", c, re.S) and len(args) == 2:
+        r = ref_chain(E, args[0])
+        d = E.read_ref(r)
+        src = deref(E, args[1])
+        if isinstance(d, VSeq) and isinstance(src, VSeq):
+            d.items += [clone(deref(E, x)) if isinstance(x, VRef) else x for x in src.items[getattr(src, "pos", 0):]]
+            return UNIT
     if re.search(r"<impl \[.*\]>::sort_by::<", c, re.S) and len(args) == 2:
         # stable insertion sort driven by the real comparator closure (each comparison is executed; its outcome is a path decision)
         r = ref_chain(E, args[0])
@@ -167,14 +195,12 @@ def dispatch(E, c, tc, args):
                 return VBool(len(d.items) == 0)
             if meth == "iter":
                 return VSeq([VRef(r.cell, r.path + (("field", k),)) for k in range(len(d.items))], "iter")
-            # membership by an abstract equality on element identities: present or not is a solver-checked fork
-            x = E.as_u(args[1])
-            eq = z3.Function("abstract_eq", E.U, E.U, z3.BoolSort())
-            present = z3.Or([z3.Or(eq(E.as_u(it), x), E.as_u(it) == x) for it in d.items]) if d.items else z3.BoolVal(False)
+            # membership by equality of element identities (smart pointers are transparent): present or not is a solver-checked fork
+            x = elem_ident(E, args[1])
+            present = z3.Or([elem_ident(E, it) == x for it in d.items]) if d.items else z3.BoolVal(False)
             if meth == "contains":
                 return VBool(present)
-            # atoms of an uninterpreted equality: both verdicts are satisfiable unless the disjunction folds to a constant
-            i = E.choose([z3.Not(present), present], "set insert", trust=True)
+            i = E.choose([z3.Not(present), present], "set insert")
             if i == 0:
                 d.items.append(args[1])
                 return VBool(True)
@@ -262,6 +288,22 @@ def dispatch(E, c, tc, args):
                     if E.choose([b.t, z3.Not(b.t)], "filter") == 0:
                         keep.append(x)
                 return VSeq(keep, "iter")
+            if meth == "map_while":
+                keep = []
+                for x in rest:
+                    r = E.force_arg(E.call_value(args[1], [x]))
+                    if r.variant != "Some":
+                        break
+                    keep.append(r.fields[0])
+                return VSeq(keep, "iter")
+            if meth in ("take_while", "skip_while"):
+                k = 0
+                for x in rest:
+                    b = E.call_value(args[1], [VRef(Cell(x, "while_item"))])
+                    if E.choose([b.t, z3.Not(b.t)], meth) == 1:
+                        break
+                    k += 1
+                return VSeq(rest[:k] if meth == "take_while" else rest[k:], "iter")
             if meth == "filter_map":
                 keep = []
                 for x in rest:
@@ -333,5 +375,11 @@ def dispatch(E, c, tc, args):
                         return VBool(meth == "any")
                 return VBool(meth == "all")
             if meth == "collect":
+                mt = re.search(r"collect::<(.*)>$", c, re.S)
+                tgt = last_seg_(mt.group(1)) if mt else "Vec"
+                if tgt in ("BTreeMap", "HashMap", "LinkedHashMap"):
+                    # keyed lookups only ("umap"): the iteration order of a map collected from abstract keys is not known
+                    pairs = [deref(E, x) for x in rest]
+                    return VSeq([VStruct("()", [p_.fields[0], p_.fields[1]]) for p_ in pairs], "map" if tgt == "LinkedHashMap" else "umap")
                 return VSeq(rest, "vec")
     return NotImplemented
